@@ -407,7 +407,8 @@ pub fn c03(tier: &str, seed: u64) -> i32 {
     ctx.pool = Pool::new(ctx.pool.size(), shim_env(), vec![]);
     let mut m0 = std_map(KtId::Bytes, 64, 2, 9, seed, "m.a");
     m0.params.val = BufP::Auto;
-    let m5 = std_map(KtId::Bytes, 8, 1, 7, seed, "m.b");
+    // a two-bucket table (the table file is shorter than its 8-bucket form; the stored bucket count matters at the next open)
+    let m5 = std_map(KtId::Bytes, 2, 1, 7, seed, "m.b");
     // one more map of every other key type: a database-level sync must reach every open map of every type
     let m1 = std_map(KtId::U64, 8, 1, 8, seed, "other-u64");
     let m2 = std_map(KtId::Str, 8, 1, 6, seed, "other-string");
